@@ -53,9 +53,34 @@ Theorem C17_own_temp_neutral :
 Proof. exact own_temp_neutral. Qed.
 Print Assumptions C17_own_temp_neutral.
 
+(* (5) Update-style operations (lyd_new_path with LYD_NEW_PATH_UPDATE, lyd_change_term, lyd_change_meta, lyd_any_copy_value): a
+   temporary value is built and compared with the current one.  With an equal value nothing changes - the temporary is freed
+   (the C17-6 class); with another value the handle holds the new value, the old value's references are released and the
+   new one's are taken.  The balance theorem (1) covers sequences containing these operations. *)
+Theorem C17_own_update_exact :
+  forall d0 s h v v', OInv d0 s -> nth_error (o_h s) h = Some (Some v) ->
+    OInv d0 (ostep s (OUpdate h v')) /\
+    (refs_eqb (refs v) (refs v') = true ->
+       o_h (ostep s (OUpdate h v')) = o_h s /\ forall x, o_dict (ostep s (OUpdate h v')) x = o_dict s x) /\
+    (refs_eqb (refs v) (refs v') = false ->
+       o_h (ostep s (OUpdate h v')) = set_handle (o_h s) h (Some v') /\
+       forall x, o_dict (ostep s (OUpdate h v')) x + cnt x (refs v) = o_dict s x + cnt x (refs v')).
+Proof. exact own_update_exact. Qed.
+Print Assumptions C17_own_update_exact.
+
+(* (6) Re-resolution of a union value at validation time: the temporary made from the recorded member type leaves nothing behind
+   on any path (the C17-8 class) and the value is switched to the new member as by an update. *)
+Theorem C17_own_resolve_exact :
+  forall d0 s h v t v', OInv d0 s -> nth_error (o_h s) h = Some (Some v) ->
+    OInv d0 (ostep s (OResolve h t v')) /\
+    o_h (ostep s (OResolve h t v')) = set_handle (o_h s) h (Some v') /\
+    forall x, o_dict (ostep s (OResolve h t v')) x + cnt x (refs v) = o_dict s x + cnt x (refs v').
+Proof. exact own_resolve_exact. Qed.
+Print Assumptions C17_own_resolve_exact.
+
 (* The prediction that the correspondence component own-delta compares with the library: for every API script projected onto
-   the model (each command = a call that may hand out a new value / a call that only uses temporaries / a duplication of the
-   previous value; at the end everything the caller holds is freed) the dictionary delta is 0 and nothing was released twice. *)
+   the model (each command = a call that may hand out a new value / a call that only uses temporaries / a duplication of, an update of,
+   or a re-resolution of the previous value; at the end everything the caller holds is freed) the dictionary delta is 0 and nothing was released twice. *)
 Theorem C17_own_script_delta_zero : forall kinds, own_script_delta kinds = (0, 0).
 Proof. exact own_script_delta_zero. Qed.
 Print Assumptions C17_own_script_delta_zero.
@@ -86,3 +111,17 @@ Example C17_own_free_single_drop_tail_refuted :
   (exists d', free_single_drop_tail (d, 0) [a; b; c] 0 = Some (d', 0, []) /\ d' [98] = 1) /\
   (exists d', free_single (d, 0) [a; b; c] 0 = Some (d', 0, [b; c])).
 Proof. exact own_free_single_drop_tail_refuted. Qed.
+
+Example C17_own_update_same_leaked_refuted :
+  let s1 := ostep (mkost ex_d0 0 0 []) (OStore ex_zone) in
+  o_dict (ostep (ostep_update_same_leaked s1 0 ex_zone) (OFree 0)) [101; 116; 104; 48] = 1 /\
+  o_dict (ostep (ostep s1 (OUpdate 0 ex_zone)) (OFree 0)) [101; 116; 104; 48] = 0.
+Proof. exact own_update_same_leaked_refuted. Qed.
+
+Example C17_own_resolve_leaked_refuted :
+  let s1 := ostep (mkost ex_d0 0 0 []) (OStore (Val [[117]] [])) in
+  let t := Val [[97; 58; 105; 100; 49]] [] in
+  o_dict (ostep (ostep_resolve_leaked s1 0 t (Val [[115]] []) true) (OFree 0)) [97; 58; 105; 100; 49] = 1 /\
+  o_dict (ostep (ostep_resolve_leaked s1 0 t (Val [[115]] []) false) (OFree 0)) [97; 58; 105; 100; 49] = 0 /\
+  o_dict (ostep (ostep s1 (OResolve 0 t (Val [[115]] []))) (OFree 0)) [97; 58; 105; 100; 49] = 0.
+Proof. exact own_resolve_leaked_refuted. Qed.
